@@ -70,6 +70,39 @@ func runC04(c *core.Ctx) {
 			c04Case(c, t, 1+(i+3)%8, 700, 2, 5, "large/"+t.Name, 0)
 		}
 	}
+	// the zero value of the Buffer type (no allocator made it): every call is a
+	// no-op that changes nothing, the reported bit depth included
+	for i, t := range dyn.ElemTypes() {
+		caseID := "zero-value/" + t.Name
+		if !c.Mine(i+2) || !c.Want(caseID) {
+			continue
+		}
+		inst := "AppendSample[" + t.Name + "]"
+		zb := t.ZeroValue()
+		before := mon.ShapeOf(zb)
+		views := []dyn.Buf{zb}
+		if p, _ := core.Guard(func() { views = append(views, zb.Slice(0, 0)) }); p {
+			views = views[:1]
+		}
+		for n := 0; n < 3; n++ {
+			for vi, vb := range views {
+				c.Eval(1)
+				vbefore := mon.ShapeOf(vb)
+				if p, msg := core.Guard(func() { vb.AppendSample(t.FromInt(int64(1 + n))) }); p {
+					c.Violate(inst+"|panic", caseID, "AppendSample on the zero value of the Buffer type panicked: "+msg, map[string]any{"type": t.Name})
+					break
+				}
+				if after := mon.ShapeOf(vb); after != vbefore {
+					c.Violate(inst+"|full-not-noop", caseID, fmt.Sprintf("call %d on the zero value of the Buffer type (view %d) changed it from %v to %v", n+1, vi, vbefore, after), map[string]any{"type": t.Name})
+					break
+				}
+			}
+		}
+		if after := mon.ShapeOf(zb); after != before {
+			c.Violate(inst+"|full-not-noop", caseID, fmt.Sprintf("appends changed the zero value of the Buffer type from %v to %v", before, after), map[string]any{"type": t.Name})
+		}
+		c.Obs("zero_value_buffers_appended_to", 1)
+	}
 	// single-sample appends across 2^24 samples (arithmetic on the length that
 	// is exact only for small numbers): shape and value checks, no world model
 	for i, ch := range []int{1, 3} {
